@@ -71,7 +71,8 @@ Proof.
   - apply wf_0.
   - reflexivity.
 Qed.
-(* the documented panic: fewer than K bases from pos on *)
+(* the documented panic: fewer than K bases from pos on (None = panic in a debug build, DESIGN 3.1; with pos > len a
+   release build wraps len - pos and is not stopped by the assert - outside the claimed domain) *)
 Theorem blocks_get_kmer_short len pos : (len < pos + K)%nat -> blocks_get_kmer c sto len pos = None.
 Proof.
   intro H. unfold blocks_get_kmer, subn. destruct (Nat.leb_spec pos len) as [Hle|?]; [|reflexivity]. cbn [obind].
